@@ -71,6 +71,9 @@ def endings():
     E.append(('stream-gen-credit-in-on_subscribe', dict(kind='stream', down=3, pub='gen', credit='onsub', ending='flag')))
     E.append(('stream-manual-credit-in-on_subscribe', dict(kind='stream', down=2, pub='manual', credit='onsub')))
     E.append(('channel-credit-in-on_subscribe', dict(kind='channel', down=2, up=1, pub='manual', credit='onsub')))
+    # 'unbounded' asked for twice from inside on_subscribe (demand adds up beyond 2^31-1)
+    E.append(('stream-unbounded-twice-in-on_subscribe', dict(kind='stream', down=2, pub='manual', credit='onsubmax')))
+    E.append(('channel-unbounded-twice-in-on_subscribe', dict(kind='channel', down=2, up=1, pub='manual', credit='onsubmax')))
     E.append(('fnf', dict(kind='fnf')))
     E.append(('push', dict(kind='push')))
     return E
